@@ -237,7 +237,38 @@ def plain_classes():
         def __contains__(self, item):
             return False
 
-    _PLAIN.update(node=Node, anynode=AnyNode, user=UserNode, light=UserLight, weird=Weird)
+    class EqHash(UserNode):
+        """Value semantics: all instances are equal and hash alike (still distinct nodes)."""
+
+        def __eq__(self, other):
+            return isinstance(other, EqHash)
+
+        def __ne__(self, other):
+            return not isinstance(other, EqHash)
+
+        def __hash__(self):
+            return 7
+
+    class Falsy(UserNode):
+        """A container-like node whose payload is empty: falsy, but a node."""
+
+        def __len__(self):
+            return 0
+
+    class FalsyLight(UserLight):
+        __slots__ = ()
+
+        def __bool__(self):
+            return False
+
+        def __eq__(self, other):
+            return isinstance(other, FalsyLight)
+
+        def __hash__(self):
+            return 3
+
+    _PLAIN.update(node=Node, anynode=AnyNode, user=UserNode, light=UserLight, weird=Weird, eqhash=EqHash, falsy=Falsy,
+                  falsylight=FalsyLight)
     return _PLAIN
 
 
